@@ -39,7 +39,12 @@ ENV_ALL = [
 
 
 PROLOGS = ['', '', '', '<!-- c -->', '<?pi x?>', '<?xml version="1.0"?>', '<?xml version="1.0"?><!-- c -->', '\n ', ' <!-- a --> ',
-           '<?xml version="1.0" encoding="UTF-8"?>\n<?p q?>\n', '\ufeff']
+           '<?xml version="1.0" encoding="UTF-8"?>\n<?p q?>\n', '\ufeff',
+           # an encoding declaration that does not match the text (a str has no encoding; bytes are UTF-8)
+           '<?xml version="1.0" encoding="utf-16"?>', '<?xml version="1.0" encoding="UTF-16LE"?>',
+           '<?xml version="1.0" encoding="iso-8859-1"?>', '<?xml version="1.0" encoding="us-ascii"?>',
+           '<?xml version="1.0" encoding="cp1252"?><!-- c -->', '<?xml version="1.0" encoding="ucs-4"?>',
+           '<?xml version="1.1"?>', '<?xml version="1.0" standalone="yes"?>']
 
 
 def gen_entity_doc(rng, marker_path):
@@ -96,6 +101,12 @@ def gen_case(rng, tier):
                         'lazy': rng.random() < 0.3})
         elif x < 0.58:
             ops.append({'op': 'env-allowed', 'name': '$sentinel'})
+        elif x < 0.68:
+            # one compiled expression (token or Selector, kept for the whole history) evaluated with the
+            # environment allowed and with default settings, in any order
+            e = rng.choice(ENV_EXPRS + ENV_ALL)
+            ops.append({'op': 'env-token', 'expr': e, 'name': '$sentinel', 'slot': rng.randrange(3),
+                        'allow': rng.random() < 0.5, 'via': rng.choice(['token', 'selector'])})
         elif x < 0.9:
             ops.append({'op': 'entity', 'seed': rng.randrange(1 << 30), 'fn': rng.choice(['parse-xml', 'parse-xml', 'parse-xml-fragment']),
                         'backend': rng.choice(['et', 'lxml', 'none']), 'via': rng.choice(['variable', 'literal'])})
@@ -124,6 +135,7 @@ def run_case(case, world):
         fp.write(FILE_MARKER)
     world.fs.add('http://sim.test/ent.txt', FILE_MARKER.encode())
     shape = []
+    compiled = {}
 
     def violate(cls, signature, detail, features=()):
         violations.append({'cls': cls, 'signature': signature, 'detail': detail, 'features': sorted(set(features))})
@@ -167,6 +179,35 @@ def run_case(case, world):
                 elif kind == 'env-all' and any(k in text for k in sentinels):
                     violate('ENV_LEAK', 'environment-names-observable',
                             '%s lists environment variable names with default settings: %s' % (expr, text[:200]), [kind])
+            elif kind == 'env-token':
+                stats['env_ops'] += 1
+                key = (op['slot'], op['via'])
+                if key not in compiled:
+                    name = sorted(sentinels)[op['slot'] % len(sentinels)]
+                    expr = op['expr'] % name if '%s' in op['expr'] else op['expr']
+                    compiled[key] = (expr, XPath31Parser().parse(expr) if op['via'] == 'token' else
+                                     elementpath.Selector(expr, parser=XPath31Parser))
+                expr, obj = compiled[key]
+                try:
+                    if op['via'] == 'token':
+                        res = obj.get_results(elementpath.XPathContext(root, allow_environment=op['allow']))
+                    elif op['allow']:
+                        res = obj.select(root, allow_environment=True)
+                    else:
+                        res = obj.select(root)
+                    text = repr(canon(res))
+                except Exception as e:
+                    text = repr(canon_exc(e)) + str(e)
+                world.event(('env-token', idx, op['allow'], text[:120]))
+                if op['allow']:
+                    if leak_in(text):
+                        world.probe('positive-control-saw-sentinel')
+                else:
+                    leak = leak_in(text)
+                    if leak or any(k in text for k in sentinels):
+                        violate('ENV_LEAK', 'environment-observable:reused-%s' % op['via'],
+                                'the compiled %s exposed %s with default settings after it had been evaluated with '
+                                'allow_environment=True: %s' % (expr, leak or 'variable names', text[:200]), [kind])
             elif kind == 'env-allowed':
                 # positive control (not part of the property): with allow_environment=True the sentinel IS visible,
                 # which proves that the detection above can see a leak
@@ -204,6 +245,10 @@ def run_case(case, world):
                     if MARKER in text or FILE_MARKER in text:
                         violate('ENTITY_EXPANDED', 'entity-expanded:%s' % ekind,
                                 '%s expanded an entity declared in the DOCTYPE: %r -> %r' % (op['fn'], doc[:120], text[:160]), feats)
+                    elif ekind.startswith('external-dtd'):
+                        # a DOCTYPE that only names an external subset declares no entity in the text: accepting it
+                        # without reading the subset (judged below by the access log) is within the statement
+                        world.probe('external-dtd-reference-accepted-without-access')
                     else:
                         violate('ENTITY_EXPANDED', 'entity-declaration-accepted:%s' % ekind,
                                 '%s accepted XML text whose DOCTYPE declares entities instead of rejecting it: %r -> %r' % (
